@@ -79,6 +79,10 @@ UNIT = dict(
     dict(name='READ_RIGHT', file=F, regex=r'static constexpr int READ_RIGHT = ([^;]+);'),
     dict(name='XV_NSDMI_version_index', file=F, regex=r'std::atomic<int> _version_index\{([^}]*)\};'),
     dict(name='XV_NSDMI_lr_indicator', file=F, regex=r'std::atomic<int> _lr_indicator\{([^}]*)\};'),
+    # return type of read(): `auto` copies the functor's result out while the read_guard is still registered;
+    # `decltype(auto)` would let a reference into the instance escape the guarded region
+    dict(name='XV_READ_RETURNS_BY_VALUE', file=F, regex=r'\n\s*((?:decltype\s*\(\s*auto\s*\)|auto|const auto&|auto&&|auto&))\s+read\(Func&& func\) const',
+         subst=[(r'^auto$', '1'), (r'^(decltype.*|const auto&|auto&&|auto&)$', '0')]),
     dict(name='XV_NSDMI_counter', file=F, regex=r'std::atomic<uint64_t> _counter\{([^}]*)\};'),
   ],
   sources=[
@@ -114,16 +118,18 @@ UNIT = dict(
          methods={'depart': 'RI_depart'},
          subst=[(r'\b_indicator\b', '(*_indicator)', 'ref_member')], members=['_indicator'],
          must_fire={'method:depart': 1, 'subst:ref_member': 1}),
-    dict(id='read', file=F, sig=r'auto read\(Func&& func\) const',
+    dict(id='read', file=F, sig=r'(?:decltype\s*\(\s*auto\s*\)|auto|const auto&|auto&&|auto&)\s+read\(Func&& func\) const',
          c_sig='static uint64_t lr_read(struct left_right* self)', ret_type='uint64_t',
-         members=LR_MEMBERS, calls={'func': 'XV_RFUNC'}, may_throw=['XV_RFUNC'],
+         members=LR_MEMBERS, calls={'func': 'XV_RFUNC'}, may_throw=['XV_RFUNC', 'XV_RFUNC_RV'], track_moves=True,
+         post_subst=[(r'XV_FORWARD\(func\)\s*\(', 'XV_RFUNC_RV(', 'func_forwarded')],
          pre_subst=[(r'(const T& \w+ = )([^;?]+)\?([^;:]+):([^;]+);', r'\1*((\2) ? &(\3) : &(\4));', 'ref_to_conditional_lvalue')],
          py_pre=raii_pre, py_post=raii_post,
          must_fire={'raii_decl': 1, 'raii_exit': 2, 'A_LOAD': 1, 'call:func': 1, 'may_throw:XV_RFUNC': 1, 'reference': 1,
                     'subst:ref_to_conditional_lvalue': 1, 'member:_lr_indicator': 1, 'member:_left': 1, 'member:_right': 1}),
     dict(id='update', file=F, sig=r'void update\(Func&& func\)',
          c_sig='static void lr_update(struct left_right* self)',
-         members=LR_MEMBERS, calls={'func': 'XV_UFUNC'}, may_throw=['XV_UFUNC'],
+         members=LR_MEMBERS, calls={'func': 'XV_UFUNC'}, may_throw=['XV_UFUNC', 'XV_UFUNC_RV'], track_moves=True,
+         post_subst=[(r'XV_FORWARD\(func\)\s*\(', 'XV_UFUNC_RV(', 'func_forwarded')],
          self_calls={'toggle_version_and_wait': 'LR_TOGGLE'},
          py_pre=raii_pre, py_post=raii_post,
          must_fire={'raii_decl': 1, 'raii_exit': 4, 'A_LOAD': 3, 'A_STORE': 2, 'call:func': 4, 'may_throw:XV_UFUNC': 4,
